@@ -675,7 +675,8 @@ def check_king_generator(ctx, f, L):
                             some = (v == 1)
                         if ce[0] == "call" and ce[1] == names(f).can_castle:
                             a = ce[2]
-                            if a[1] == ("field", ("downcast", rf, "Some"), "0"):
+                            # the rook named by its file or by its square on the mover's back rank
+                            if a[1] in (("field", ("downcast", rf, "Some"), "0"), ("sq", ("field", ("downcast", rf, "Some"), "0"), ("relrank", 0, STM))):
                                 can = (v == 1, a[2], a[3])
                     if in_check:
                         if some is not None or can is not None:
